@@ -59,6 +59,9 @@ func RunHarness(p *Program, h *Harness, cfg runCfg) (res *Result) {
 	c := NewCtx(p)
 	x := NewExec(c, p)
 	x.h = h
+	if h.Item.Options["frame"] == "off" {
+		x.frameOff = true
+	}
 	st := NewState()
 	args := make([]*Term, len(h.Fn.Params))
 	for i, prm := range h.Fn.Params {
@@ -136,7 +139,7 @@ func RunHarness(p *Program, h *Harness, cfg runCfg) (res *Result) {
 		res.Status = "refuted"
 		res.Model = sr.Output
 		for i, l := range labels {
-			if strings.Contains(sr.Output, fmt.Sprintf("(define-fun path!%d () Bool\n    true)", i)) || strings.Contains(sr.Output, fmt.Sprintf("(define-fun path!%d () Bool true)", i)) {
+			if strings.Contains(sr.Output, fmt.Sprintf("(path!%d true)", i)) {
 				res.FailPaths = append(res.FailPaths, l)
 			}
 		}
@@ -155,7 +158,7 @@ func RunHarness(p *Program, h *Harness, cfg runCfg) (res *Result) {
 // paramInv: assumptions on harness parameters (A2).
 func (x *Exec) paramInv(st *State, t types.Type, v *Term) *Term {
 	c := x.c
-	inv := c.Invariant(t, v)
+	inv := c.InputInvariant(t, v)
 	if v.Sort.Kind == KFn {
 		inv = c.And(inv, c.Not(c.Eq(v, c.zeroOf(v.Sort))))
 	}
